@@ -4,7 +4,7 @@
    the capacity is ANY nat (the code builds 2^bits only; C17_suffix_bits is that instance).
    Not proved here: that internal.BinaryPow(bits) = 2^bits without overflow (bits <= 15 by
    negotiation, C12) and that connections call Write with the right payloads (C02). *)
-From Gws Require Import Lib.Base Model.Window Spec.Suffix Proofs.WindowProofs.
+From Gws Require Import Lib.Base Model.Window Spec.Suffix Proofs.WindowProofs Gen.Funcs Proofs.GenFuncsProofs.
 
 (* for every capacity and every history of chunks (any number, any sizes, any contents): no write
    panics (Some), and the window holds exactly the last min(total, cap) bytes, in order *)
@@ -51,9 +51,21 @@ Example C17_nonvacuous :
   /\ window_spec 4 chunks = [10; 11; 12; 13]%N.
 Proof. vm_compute. repeat split; reflexivity. Qed.
 
+(* Tie to the source: the four branch conditions of slideWindow.Write (disabled; fits; free space left; chunk at least
+   as long as the window), as regenerated from compress.go on every run, are the conditions of the model sw_write *)
+Theorem C17_conditions_from_source : forall (w : window) (p : list N),
+  let n := length p in let len := length (sw_dict w) in let m := (sw_size w - len)%nat in
+  gf_gws_slideWindow_Write_nconds = 4%nat
+  /\ gf_gws_slideWindow_Write_cond1 (sw_enabled w) = negb (sw_enabled w)
+  /\ gf_gws_slideWindow_Write_cond2 (Z.of_nat (sw_size w)) (Z.of_nat len) (Z.of_nat n) = (n + len <=? sw_size w)%nat
+  /\ (gf_gws_slideWindow_Write_cond3 (Z.of_nat (sw_size w) - Z.of_nat len) = (0 <? m)%nat)
+  /\ forall n1 : nat, gf_gws_slideWindow_Write_cond4 (Z.of_nat (sw_size w)) (Z.of_nat n1) = (sw_size w <=? n1)%nat.
+Proof. exact window_conditions_from_source. Qed.
+
 Print Assumptions C17_suffix.
 Print Assumptions C17_suffix_bits.
 Print Assumptions C17_spec_meaning.
 Print Assumptions C17_disabled.
 Print Assumptions C17_compose.
 Print Assumptions C17_length_bounded.
+Print Assumptions C17_conditions_from_source.
